@@ -6,47 +6,60 @@ import common as C
 import impl
 
 NREGS = 5
-NVARS = 5
+NVARS = 6          # variables 1..3 are Promises, 4..6 are "late" Deferreds
+PROMISES = (1, 2, 3)
+LATES = (4, 5, 6)
 
 
 def gen_ops(rng, n):
     ops = []
-    settled = set()
+    settled, latent, awaiting = set(), set(), set()
     small = [0, 1, -1, 2, -2, 3, 5, -7, 8, 100, 512, -512, 65535, 65536]
     for _ in range(n):
         k = rng.random()
         r, a, b = rng.randrange(NREGS), rng.randrange(NREGS), rng.randrange(NREGS)
         x = rng.randrange(1, NVARS + 1)
         c = rng.choice(small)
-        if k < 0.16:
+        if k < 0.15:
             ops.append(("PVar", r, x))
-        elif k < 0.22:
+        elif k < 0.19:
             ops.append(("PConst", r, c))
-        elif k < 0.36:
+        elif k < 0.31:
             ops.append(("PAdd", r, a, b))
-        elif k < 0.42:
+        elif k < 0.35:
             ops.append(("PAddC", r, a, c, rng.random() < 0.5))
-        elif k < 0.52:
+        elif k < 0.45:
             ops.append(("PAddV", r, a, x, rng.random() < 0.5))
-        elif k < 0.58:
+        elif k < 0.49:
             ops.append(("PNeg", r, a))
-        elif k < 0.70:
+        elif k < 0.58:
             ops.append(("PSub", r, a, b))
-        elif k < 0.75:
+        elif k < 0.63:
             ops.append(("PSubV", r, a, x))
-        elif k < 0.78:
+        elif k < 0.65:
             ops.append(("PRSubC", r, a, c))
-        elif k < 0.86:
+        elif k < 0.71:
             ops.append(("PScale", r, a, rng.choice([0, 1, -1, 2, 3, -2, 4]), rng.random() < 0.5))
-        elif k < 0.92:
-            if x not in settled:
+        elif k < 0.83:
+            # settle a promise / give a late deferred its value: a number, a polynomial (possibly containing
+            # other variables, the "base promise" among them), or another variable (chains)
+            y = rng.randrange(1, NVARS + 1)
+            kind = rng.choice(["C", "P", "P", "V", "V"])
+            if x in PROMISES and x not in settled:
                 settled.add(x)
-                if rng.random() < 0.5:
-                    ops.append(("PSettleC", x, c))
-                else:
-                    ops.append(("PSettleP", x, a))
+                ops.append({"C": ("PSettleC", x, c), "P": ("PSettleP", x, a), "V": ("PSettleV", x, y)}[kind])
+            elif x in LATES and x not in latent:
+                latent.add(x)
+                ops.append({"C": ("PLatentC", x, c), "P": ("PLatentP", x, a), "V": ("PLatentV", x, y)}[kind])
+        elif k < 0.88:
+            if x in awaiting:
+                awaiting.discard(x)
+                ops.append(("PAwait", x, False))
+            else:
+                awaiting.add(x)
+                ops.append(("PAwait", x, True))
         else:
-            ops.append(("PWait", a, rng.random() < 0.4))
+            ops.append(("PWait", a, rng.random() < 0.35))
     ops.append(("PWait", rng.randrange(NREGS), False))
     return ops
 
@@ -57,57 +70,98 @@ def _obs(v, names):
     return [[[names[id(k)], c] for k, c in v.coeffs.items()], v.constant_term]
 
 
+def _num(ret, D):
+    """a wait result as a number, or None (an exception, a polynomial that still has variables, another object)"""
+    if isinstance(ret, bool):
+        return None
+    if isinstance(ret, int):
+        return ret
+    if isinstance(ret, D.LinearPolynomial) and not ret.coeffs:
+        return ret.constant_term
+    return None
+
+
 def drive(ops):
     """Apply ops to the real objects.  Returns (final registers, wait results) as plain lists."""
     m = impl.load()
     D = m["deferred"]
     impl.reset_global_state()
     LP, Promise = D.LinearPolynomial, D.Promise
-    P = {x: Promise[int](f"P{x}") for x in range(1, NVARS + 1)}
-    names = {id(p): x for x, p in P.items()}
+    V, cell = {}, {}
+    for x in PROMISES:
+        V[x] = Promise[int](f"P{x}")
+
+    def late_fn(x):
+        def fn():
+            D.not_ready()            # like Symbol._resolve before it looks at exported symbols
+            if x not in cell:
+                raise Exception(f"Late {x} is not ready")
+            return cell[x]
+        return fn
+    for x in LATES:
+        V[x] = D.Deferred(int, late_fn(x), f"L{x}")
+    names = {id(p): x for x, p in V.items()}
     regs = [LP[int]() for _ in range(NREGS)]
     rets = []
-    for op in ops:
-        t = op[0]
-        if t == "PConst":
-            regs[op[1]] = LP[int]() + op[2]
-        elif t == "PVar":
-            regs[op[1]] = P[op[2]] + 0
-        elif t == "PAdd":
-            regs[op[1]] = regs[op[2]] + regs[op[3]]
-        elif t == "PAddC":
-            regs[op[1]] = (regs[op[2]] + op[3]) if op[4] else (op[3] + regs[op[2]])
-        elif t == "PAddV":
-            regs[op[1]] = (regs[op[2]] + P[op[3]]) if op[4] else (P[op[3]] + regs[op[2]])
-        elif t == "PNeg":
-            regs[op[1]] = -regs[op[2]]
-        elif t == "PSub":
-            regs[op[1]] = regs[op[2]] - regs[op[3]]
-        elif t == "PSubV":
-            regs[op[1]] = regs[op[2]] - P[op[3]]
-        elif t == "PRSubC":
-            regs[op[1]] = op[3] - regs[op[2]]
-        elif t == "PScale":
-            regs[op[1]] = (regs[op[2]] * op[3]) if op[4] else (op[3] * regs[op[2]])
-        elif t == "PSettleC":
-            P[op[1]].settle(op[2])
-        elif t == "PSettleP":
-            src = regs[op[2]]
-            P[op[1]].settle(LP[int](dict(src.coeffs), src.constant_term))
-        elif t == "PWait":
-            ret = None
-            if op[2]:
-                with D.try_compute:      # speculative evaluation
-                    ret = regs[op[1]].wait()
+    try:
+        for op in ops:
+            t = op[0]
+            if t == "PConst":
+                regs[op[1]] = LP[int]() + op[2]
+            elif t == "PVar":
+                regs[op[1]] = V[op[2]] + 0
+            elif t == "PAdd":
+                regs[op[1]] = regs[op[2]] + regs[op[3]]
+            elif t == "PAddC":
+                regs[op[1]] = (regs[op[2]] + op[3]) if op[4] else (op[3] + regs[op[2]])
+            elif t == "PAddV":
+                regs[op[1]] = (regs[op[2]] + V[op[3]]) if op[4] else (V[op[3]] + regs[op[2]])
+            elif t == "PNeg":
+                regs[op[1]] = -regs[op[2]]
+            elif t == "PSub":
+                regs[op[1]] = regs[op[2]] - regs[op[3]]
+            elif t == "PSubV":
+                regs[op[1]] = regs[op[2]] - V[op[3]]
+            elif t == "PRSubC":
+                regs[op[1]] = op[3] - regs[op[2]]
+            elif t == "PScale":
+                regs[op[1]] = (regs[op[2]] * op[3]) if op[4] else (op[3] * regs[op[2]])
+            elif t == "PSettleC":
+                V[op[1]].settle(op[2])
+            elif t == "PSettleP":
+                src = regs[op[2]]
+                V[op[1]].settle(LP[int](dict(src.coeffs), src.constant_term))
+            elif t == "PSettleV":
+                V[op[1]].settle(V[op[2]])
+            elif t == "PLatentC":
+                cell[op[1]] = op[2]
+            elif t == "PLatentP":
+                src = regs[op[2]]
+                cell[op[1]] = LP[int](dict(src.coeffs), src.constant_term)
+            elif t == "PLatentV":
+                cell[op[1]] = V[op[2]]
+            elif t == "PAwait":
+                V[op[1]].is_awaiting = op[2]
+            elif t == "PWait":
+                ret = None
+                if op[2]:
+                    with D.try_compute:      # speculative evaluation
+                        ret = regs[op[1]].wait()
+                else:
+                    try:                     # final evaluation
+                        ret = regs[op[1]].wait()
+                    except D.DeferredCycle:
+                        pass
+                    except Exception as ex:
+                        if "is not ready" not in str(ex):
+                            raise
+                rets.append(_num(ret, D))
             else:
-                try:                     # final evaluation: an unsettled Promise raises a plain Exception
-                    ret = regs[op[1]].wait()
-                except Exception as ex:
-                    if "is not ready" not in str(ex):
-                        raise
-            rets.append(None if ret is None else _obs(ret, names))
-        else:
-            raise AssertionError(t)
+                raise AssertionError(t)
+    finally:
+        for v in V.values():
+            v.is_awaiting = False
+        impl.reset_global_state()
     return [_obs(r, names) for r in regs], rets
 
 
@@ -121,7 +175,7 @@ def _obs_term(o):
 
 def op_term(op):
     t = op[0]
-    if t in ("PConst",):
+    if t == "PConst":
         return f"PConst {op[1]} {C.zlit(op[2])}"
     if t == "PVar":
         return f"PVar {op[1]} {op[2]}"
@@ -133,10 +187,14 @@ def op_term(op):
         return f"{t} {op[1]} {op[2]} {op[3]}"
     if t == "PNeg":
         return f"PNeg {op[1]} {op[2]}"
-    if t == "PSettleC":
-        return f"PSettleC {op[1]} {C.zlit(op[2])}"
-    if t == "PSettleP":
-        return f"PSettleP {op[1]} {op[2]}"
+    if t in ("PSettleC", "PLatentC"):
+        return f"{t} {op[1]} {C.zlit(op[2])}"
+    if t in ("PSettleP", "PLatentP"):
+        return f"{t} {op[1]} {op[2]}%nat"
+    if t in ("PSettleV", "PLatentV"):
+        return f"{t} {op[1]} {op[2]}"
+    if t == "PAwait":
+        return f"PAwait {op[1]} {'true' if op[2] else 'false'}"
     if t == "PWait":
         return f"PWait {'true' if op[2] else 'false'} {op[1]}"
     raise AssertionError(t)
@@ -145,7 +203,7 @@ def op_term(op):
 def case_term(ops, regs, rets):
     ops_t = "[" + "; ".join(op_term(o) for o in ops) + "]"
     regs_t = "[" + "; ".join(_obs_term(r) for r in regs) + "]"
-    rets_t = "[" + "; ".join("None" if r is None else f"Some {_obs_term(r)}" for r in rets) + "]"
+    rets_t = "[" + "; ".join("None" if r is None else f"Some {C.zlit(r)}" for r in rets) + "]"
     return f"(({NREGS}%nat, {ops_t}, {regs_t}, {rets_t}) : poly_case)"
 
 
@@ -167,7 +225,7 @@ def run(rep, pid, rng, n):
     for (ops, regs, rets), code in zip(cases, flat):
         rep.add_eval()
         rep.count("poly-sequence")
-        if any(o[0] in ("PSettleP", "PWait") for o in ops[:-1]) and any(r[0] for r in regs):
+        if any(o[0] in ("PSettleP", "PSettleV", "PLatentP", "PLatentV") for o in ops[:-1]) and any(o[0] == "PWait" for o in ops[:-1]):
             rep.nontrivial(("poly", str(ops)))
         if code & 1:
             rep.disagree("poly: Model.Poly replay vs real LinearPolynomial/Promise objects", {"ops": ops},
